@@ -165,6 +165,92 @@ def h02a(c, mode="sim"):
             c.ob("accepted.in-flight-status", order.status == lc.TRANSIENT[kind])
 
 
+def h02a_betdaq(c):
+    """Betdaq client: the same refusal discipline for place / cancel / update (and replace, which Betdaq orders do not support)"""
+    from flumine.baseflumine import BaseFlumine
+    from flumine.clients.betdaqclient import BetdaqClient
+    from flumine.exceptions import OrderError
+    from flumine.order.order import BetdaqOrder
+    from flumine.order.ordertype import BetdaqLimitOrder
+    with cm.config_set(simulated=False):
+        op = c.choose("operation", ["place", "cancel", "update", "replace"])
+        sources = {"place": ["none", "invalid-price", "exposure", "strategy-validate", "txn-limit", "custom-control"],
+                   "cancel": ["none", "txn-limit", "custom-control", "own-guard", "size-reduction-not-supported"],
+                   "update": ["none", "exposure", "txn-limit", "custom-control", "own-guard"],
+                   "replace": ["not-supported"]}[op]
+        src = c.choose("refusal_source", sources)
+        force = c.choose("force", [False, True])
+        c.tag("operation", op); c.tag("source", src); c.tag("force", force); c.tag("mode", "betdaq")
+        client = BetdaqClient(betting_client=cm.NS(username="bdq", betting=cm.NS()), order_stream=False)
+        fl = BaseFlumine(client)
+        sent = []
+        fl.process_order_package = lambda p: sent.append(p)
+        strategy = cm.add_live_strategy(fl, "s", dict(max_order_exposure=1000, max_selection_exposure=1000, max_live_trade_count=5))
+        market = fl._add_market(cm.MID, cm.book([cm.runner(1)], version=7))
+        tr = Trade(cm.MID, 1, 0, strategy)
+        order = tr.create_betdaq_order("BACK", BetdaqLimitOrder(2.0 if src != "invalid-price" else 2.013, 5.0, 1, 0, 0), BetdaqOrder)
+        if op != "place":
+            order.update_client(client)
+            order.bet_id = 777
+            market.blotter[order.id] = order
+            order.responses.placed({"order_id": 777, "status": "Unmatched", "remaining_size": 5.0, "matched_size": 0.0})
+            order.status = S.EXECUTABLE
+            order.status_log.append(S.EXECUTABLE)
+            strategy.get_runner_context(*order.lookup).place(tr.id)
+        if src == "exposure":
+            strategy.max_order_exposure = 0.5
+            strategy.max_selection_exposure = 0.5
+        elif src == "strategy-validate":
+            strategy.max_trade_count = 0
+        elif src == "txn-limit":
+            client.transaction_limit = 3
+            [x for x in client.trading_controls if x.NAME == "MAX_TRANSACTION_COUNT"][0]._check_hour()
+            client.add_transaction(5)
+        elif src == "custom-control":
+            client.trading_controls.append(RefuseAll(fl))
+        elif src == "own-guard":
+            order.status = S.CANCELLING
+        applies = src != "none"
+        if src in ("invalid-price", "exposure", "strategy-validate", "txn-limit", "custom-control") and force:
+            applies = False
+        before = _snapshot(order, market, strategy)
+        raised = None
+        res = None
+        try:
+            if op == "place":
+                res = market.place_order(order, force=force)
+            elif op == "cancel":
+                res = market.cancel_order(order, 2.0 if src == "size-reduction-not-supported" else None, force=force)
+            elif op == "update":
+                res = market.update_order(order, size_delta=-1.0, new_price=2.5, force=force)
+            else:
+                res = market.replace_order(order, 3.0, force=force)
+        except (OrderUpdateError, OrderError) as e:
+            raised = e
+        refused = raised is not None or res is False
+        after = _snapshot(order, market, strategy)
+        if applies:
+            c.ob("refusal-source-refuses", refused)
+        else:
+            c.ob("no-refusal-source-accepts", not refused)
+        if refused:
+            c.cover("refused")
+            c.ob("refused.nothing-sent", len(sent) == 0)
+            if op == "place":
+                c.ob("refused-new-order.violation", order.status == S.VIOLATION)
+                c.ob("refused-new-order.not-in-blotter", not after["in_blotter"])
+                for k in ("blotter_ids", "live", "rc_trades", "rc_live", "rc_placed", "rc_invested", "trade_status", "trade_log"):
+                    c.ob("refused-new-order.%s-unchanged" % k, after[k] == before[k])
+            else:
+                for k in before:
+                    c.ob("refused.%s-unchanged" % k, after[k] == before[k], before=str(before[k])[:60], after=str(after[k])[:60])
+        else:
+            c.cover("accepted")
+            kind = PT[op]
+            c.ob("accepted.sent-exactly-once", len(sent) == 1 and sent[0].package_type == kind and [o for o in sent[0]._orders] == [order])
+            c.ob("accepted.package-is-betdaq", type(sent[0]).__name__ == "BetdaqOrderPackage")
+
+
 KINDS = ["place", "cancel", "update", "replace"]
 PT = {"place": OrderPackageType.PLACE, "cancel": OrderPackageType.CANCEL, "update": OrderPackageType.UPDATE, "replace": OrderPackageType.REPLACE}
 
@@ -272,10 +358,11 @@ def h02c(c):
     c.cover("chunks")
 
 
-OUT = ["Betdaq clients in H02a (MarketValidation / exposure for Betdaq are marked todo in flumine)", "N > 3 (thorough 4) requests per transaction combined with real objects: composition of H02b and H02c is an argument, not a query"]
+OUT = ["Betdaq: market-status validation is not implemented by flumine (marked todo) and is not a refusal source in H02a-betdaq", "N > 3 (thorough 4) requests per transaction combined with real objects: composition of H02b and H02c is an argument, not a query"]
 HARNESSES = [
     Harness("H02a-sim", h02a, quick=dict(mode="sim"), pattern="P2 inductive step", requires=["refused", "accepted"], outside=OUT),
     Harness("H02a-live", h02a, quick=dict(mode="live"), pattern="P2 inductive step", requires=["refused", "accepted"], outside=OUT),
+    Harness("H02a-betdaq", h02a_betdaq, pattern="P2 inductive step", requires=["refused", "accepted"], outside=OUT, selfcheck=False),
     Harness("H02b", h02b, quick=dict(N=3), thorough=dict(N=4), pattern="P3 bounded history", requires=["batched", "explicit-execute", "several-packages", "rejected-inside-batch"], outside=OUT,
             max_paths=(300000, 3000000), wall_s=(300, 3000)),
     Harness("H02c", h02c, pattern="P1 kernel (symbolic length)", requires=["chunks"], outside=OUT),
